@@ -1,25 +1,51 @@
 """C06 / C07: census of the *syntactic* panic sites of the engine proper, outside tests and outside
-the verif hooks: every `.expect(…)`, `.unwrap()`, `unreachable!`, `panic!`, `unimplemented!`,
-`todo!`, `assert!`/`assert_eq!`/`assert_ne!` (not `debug_assert*`), and every index expression
-`name[…]` / `name.field[…]` (slices `[a..b]` included), in
+the verif hooks:
 
-    add-time code   : tera/src/parsing/{lexer,parser,compiler,instructions,ast}.rs, template.rs, tera.rs
-    render-time code: tera/src/vm/{interpreter,state,stack,for_loop}.rs
+    expect   every `.expect("…")`                                   text = the message literal
+    unwrap   every `.unwrap()`                                       text = the receiver chain
+    macro    `unreachable!` `panic!` `unimplemented!` `todo!` `assert!` `assert_eq!` `assert_ne!`
+             (not `debug_assert*`)                                   text = macro!(first 60 chars)
+    index    every index / slice expression `name[…]`, `a.b.c[…]`, `f()[…]`, `f(x)[…]`, `(e)[…]`,
+             `m[i][j]` (ranges `[a..b]` included)                    text = receiver[index]
+    method   calls of std methods that panic on a bad argument and whose name is unambiguous
+             (PANICKING_METHODS: `windows`, `split_at`, `drain`, `swap_remove`, `step_by`, …)
+                                                                     text = method(arguments)
+    unsafe   every `unsafe { … }` block / `unsafe fn` / `unsafe impl`  text = the block (70 chars)
+
+in
+
+    add-time code   : tera/src/parsing/{lexer,parser,compiler,instructions,ast,mod}.rs, template.rs,
+                      tera.rs, delimiters.rs
+    render-time code: tera/src/vm/{interpreter,state,stack,for_loop,mod}.rs, context.rs,
+                      components.rs, reporting.rs, errors.rs, utils.rs
+    values/built-ins: tera/src/value/*.rs, args.rs, filters.rs, functions.rs, tests.rs, globbing.rs,
+                      lib.rs
 
 Output: Generated/PanicCensus.lean
 
-    Tera.Generated.panicCensusAdd    : List (String × String × String × String × Nat)
-    Tera.Generated.panicCensusRender : List (String × String × String × String × Nat)
+    Tera.Generated.panicCensusAdd      : List (String × String × String × String × Nat)
+    Tera.Generated.panicCensusRender   : List (String × String × String × String × Nat)
+    Tera.Generated.panicCensusBuiltins : List (String × String × String × String × Nat)
 
-each entry = (file, enclosing fn or macro, kind, normalised text, number of occurrences in that fn),
-sorted.  No line numbers: moving code does not change the census, adding / removing / rewording a
-site does.  Props/PanicCensus.lean holds the hand-written account of every entry (which model
-outcome represents it, or why it cannot fire) and proves the two lists equal: a site added to the
-Rust that the models do not know about breaks that theorem.
+each entry = (file, enclosing fn or top-level macro, kind, normalised text, number of occurrences in
+that fn), sorted.  The enclosing fn is the innermost `fn` item whose brace block contains the site
+(macros defined inside a fn count as that fn).  No line numbers: moving code does not change the
+census, adding / removing / rewording a site does.  Props/PanicCensus{Add,Render,Builtins}.lean hold
+the hand-written account of every entry (which model outcome represents it and which theorem
+excludes it, or why it cannot fire) and prove `covers census account = true`: every census entry
+has account rows with the same (file, fn, kind, text) whose counts add up to at least the census
+count.  Removing a site or moving code keeps the theorem; a site ADDED to the Rust that the account
+does not know (a new text, a new kind in a function, one more occurrence) breaks it.
 
-What is NOT in the census (stated in DESIGN.md): arithmetic overflow (`+`/`-`/`*` on usize — the
-harness profile has overflow-checks on), slicing through method calls (`get(..)` is total),
-`RefCell` borrows, allocation failure, stack overflow, panics inside dependencies.
+What is NOT in the census (stated in DESIGN.md and in the `trusted` lines of props.d/C06.json and
+C07.json): arithmetic overflow / underflow / division (`+ - * / %` on integers, `next_power_of_two`:
+the harness profile has overflow-checks on), `as` casts, `Vec::remove` / `Vec::insert` /
+`String::truncate` / `String::remove` and other panicking methods whose name also exists on maps,
+`RefCell` / lock borrows, allocation failure and capacity overflow (`with_capacity`, `repeat`,
+`push`), stack overflow, `slice::sort*` with a non-total order, panics inside `Display` / `Write`
+impls called through `format!` / `write!`, panics inside dependencies and inside user-supplied
+filters / functions / tests / escape functions / `AsRef<str>` / `Serialize` impls, code behind
+`#[cfg(test)]` and the `verif_hooks` feature, macro-generated code of other crates.
 """
 import os
 import re
@@ -34,6 +60,30 @@ ADD_FILES = ["parsing/lexer.rs", "parsing/parser.rs", "parsing/compiler.rs", "pa
              "parsing/ast.rs", "parsing/mod.rs", "template.rs", "tera.rs", "delimiters.rs"]
 RENDER_FILES = ["vm/interpreter.rs", "vm/state.rs", "vm/stack.rs", "vm/for_loop.rs", "vm/mod.rs",
                 "context.rs", "components.rs", "reporting.rs", "errors.rs", "utils.rs"]
+BUILTIN_FILES = ["value/mod.rs", "value/key.rs", "value/number.rs", "value/ser.rs", "value/de.rs",
+                 "value/utils.rs", "args.rs", "filters.rs", "functions.rs", "tests.rs", "globbing.rs",
+                 "lib.rs"]
+# not engine code: the add-only introspection hooks and the crate's own snapshot tests
+EXCLUDED = ["verif_hooks.rs"]
+EXCLUDED_DIRS = ["snapshot_tests"]
+
+
+def _check_file_lists(repo):
+    """every source file of the crate is in exactly one list: a NEW file must be classified"""
+    root = os.path.join(repo, "tera", "src")
+    known = set(ADD_FILES) | set(RENDER_FILES) | set(BUILTIN_FILES) | set(EXCLUDED)
+    if len(known) != len(ADD_FILES) + len(RENDER_FILES) + len(BUILTIN_FILES) + len(EXCLUDED):
+        raise ValueError("a file is in two census lists")
+    found = set()
+    for d, dirs, files in os.walk(root):
+        dirs[:] = [x for x in dirs if x not in EXCLUDED_DIRS]
+        for f in files:
+            if f.endswith(".rs"):
+                found.add(os.path.relpath(os.path.join(d, f), root))
+    if found - known:
+        raise ValueError(f"source files in no census list: {sorted(found - known)}")
+    if known - found:
+        raise ValueError(f"census lists name files that do not exist: {sorted(known - found)}")
 
 
 def _match_brace(text, i):
@@ -48,6 +98,20 @@ def _match_brace(text, i):
             if depth == 0:
                 return j + 1
     raise ValueError("unbalanced braces")
+
+
+def _match_paren(text, i):
+    """index just after the parenthesis group starting at text[i] == '('"""
+    depth = 0
+    for j in range(i, len(text)):
+        c = text[j]
+        if c == "(":
+            depth += 1
+        elif c == ")":
+            depth -= 1
+            if depth == 0:
+                return j + 1
+    raise ValueError("unbalanced parentheses")
 
 
 def _blank_noncode(src):
@@ -81,12 +145,12 @@ def _blank_noncode(src):
                     j += 2 if src[j] == "\\" else 1
                 j += 1
             lit = src[i:j]
-            out.append(lit.translate(str.maketrans("{}[]", "\x01\x02\x03\x04")))
+            out.append(lit.translate(str.maketrans("{}[]()", "\x01\x02\x03\x04\x05\x06")))
             i = j
         elif c == "'" :
             m = re.match(r"'(\\.[^']*|[^'\\])'", src[i:])
             if m:  # char literal (not a lifetime)
-                out.append(m.group(0).translate(str.maketrans("{}[]", "\x01\x02\x03\x04")))
+                out.append(m.group(0).translate(str.maketrans("{}[]()", "\x01\x02\x03\x04\x05\x06")))
                 i += len(m.group(0))
             else:
                 out.append(c)
@@ -123,7 +187,7 @@ def _strip_items(text, attr_regex):
 
 
 def _unblank(s):
-    return s.translate(str.maketrans("\x01\x02\x03\x04", "{}[]"))
+    return s.translate(str.maketrans("\x01\x02\x03\x04\x05\x06", "{}[]()"))
 
 
 def _norm(s):
@@ -131,21 +195,60 @@ def _norm(s):
 
 
 def _enclosing(text, pos, headers):
+    """name of the innermost `fn` (or top-level `macro_rules!`) whose item — header up to the end of
+    its brace block — contains `pos`; `<top>` outside every fn (statics, consts, impl headers)"""
     name = "<top>"
-    for p, n in headers:
-        if p <= pos:
-            name = n
-        else:
+    for start, end, n in headers:
+        if start <= pos < end:
+            name = n          # headers are in source order: a later match is nested deeper
+        elif start > pos:
             break
     return name
 
 
+def _headers(text):
+    depth_at = []
+    d = 0
+    for ch in text:
+        depth_at.append(d)
+        d += ch == "{"
+        d -= ch == "}"
+    out = []
+    for m in re.finditer(r"\b(fn|macro_rules!)\s+([A-Za-z_]\w*)", text):
+        if m.group(1) != "fn" and depth_at[m.start()] != 0:
+            continue            # a macro defined inside a fn: its sites belong to that fn
+        brace = text.find("{", m.end())
+        semi = text.find(";", m.end())
+        if brace < 0 or (0 <= semi < brace):
+            continue            # a declaration without body (trait method, extern)
+        out.append((m.start(), _match_brace(text, brace), m.group(2)))
+    return out
+
+
+# std methods that panic on a bad argument and whose NAME is unambiguous (`remove` / `insert` /
+# `truncate` are not listed: on a map they are total, and the receiver's type is not visible to a
+# syntactic scan; `unwrap_err` / `expect_err` are the mirror images of `unwrap` / `expect`)
+PANICKING_METHODS = (
+    "windows|chunks|chunks_exact|chunks_mut|rchunks|split_at|split_at_mut|swap_remove|split_off|"
+    "drain|step_by|copy_from_slice|clone_from_slice|copy_within|swap|rotate_left|rotate_right|"
+    "select_nth_unstable|replace_range|unwrap_err|expect_err|unwrap_unchecked|get_unchecked|"
+    "get_unchecked_mut"
+)
 SITE_RES = [
     ("expect", re.compile(r"\.\s*expect\s*\(\s*(\"(?:[^\"\\]|\\.)*\")\s*\)")),
     ("unwrap", re.compile(r"\.\s*unwrap\s*\(\s*\)")),
     ("macro", re.compile(r"\b(unreachable|panic|unimplemented|todo|assert|assert_eq|assert_ne)!\s*\(")),
+    ("method", re.compile(r"\.\s*(" + PANICKING_METHODS + r")\s*\(")),
+    ("unsafe", re.compile(r"\bunsafe\b\s*(?:\{|fn\b|impl\b)")),
 ]
-INDEX_RE = re.compile(r"(?<![#\w!.$])(\$?[A-Za-z_][\w]*(?:\s*\.\s*[A-Za-z_0-9]\w*|\s*\(\s*\))*)\s*\[")
+# an index expression: `name[`, `a.b.c[`, `f()[` … not preceded by `#` (attribute), an identifier
+# character or `$`, and not by a single `.` (then it is the tail of a chain that is matched from
+# its head) — but `..x[i]` (range bound) and `!x[i]` are index expressions
+INDEX_RE = re.compile(
+    r"(?<![#\w$'])(?<!(?<!\.)\.)(\$?[A-Za-z_][\w]*(?:\s*\.\s*[A-Za-z_0-9]\w*|\s*\(\s*\))*)\s*\[")
+# an index applied to a call with arguments, a parenthesised expression, a `?` or another index:
+# `f(x)[i]`, `(a + b)[i]`, `g()?[0]`, `m[i][j]`
+INDEX_TAIL_RE = re.compile(r"[)\]?]\s*\[")
 
 
 def _receiver_before(text, pos):
@@ -164,7 +267,7 @@ def _receiver_before(text, pos):
                 depth -= text[i] == open_
                 if depth == 0:
                     break
-        elif c.isalnum() or c in "_.:&*$?!\x01\x02\x03\x04":
+        elif c.isalnum() or c in "_.:&*$?!\x01\x02\x03\x04\x05\x06":
             i -= 1
         elif c.isspace():
             # whitespace is part of the chain only when the next non-space char continues a chain
@@ -190,15 +293,7 @@ def census(repo, files):
         text = _strip_items(text, r"#\[cfg\(\s*test\s*\)\]")
         text = _strip_items(text, r"#\[cfg\(\s*feature\s*=\s*\"verif_hooks\"\s*\)\]")
         text = _strip_items(text, r"#\[cfg\(\s*all\(\s*test[^\]]*\]")
-        depth_at = []
-        d = 0
-        for ch in text:
-            depth_at.append(d)
-            d += ch == "{"
-            d -= ch == "}"
-        headers = [(m.start(), m.group(2)) for m in
-                   re.finditer(r"\b(fn|macro_rules!)\s+([A-Za-z_]\w*)", text)
-                   if m.group(1) == "fn" or depth_at[m.start()] == 0]
+        headers = _headers(text)
         for kind, rx in SITE_RES:
             for m in rx.finditer(text):
                 fn = _enclosing(text, m.start(), headers)
@@ -206,31 +301,44 @@ def census(repo, files):
                     txt = _unblank(m.group(1))
                 elif kind == "unwrap":
                     txt = _receiver_before(text, m.start())
+                elif kind == "method":
+                    close = _match_paren(text, m.end() - 1)
+                    txt = m.group(1) + "(" + _norm(text[m.end():close - 1])[:60] + ")"
+                elif kind == "unsafe":
+                    brace = text.find("{", m.start())
+                    txt = "unsafe " + _norm(text[brace:_match_brace(text, brace)])[:70]
                 else:
                     close = text.find(")", m.end())
                     txt = m.group(1) + "!(" + _norm(text[m.end():close])[:60] + ")"
                 key = (rel, fn, kind, txt)
                 counts[key] = counts.get(key, 0) + 1
+        seen_brackets = set()
+        index_sites = []   # (position of the receiver's start, position just after `[`, receiver)
         for m in INDEX_RE.finditer(text):
-            recv = _norm(m.group(1))
-            if recv in ("vec", "matches", "format", "println", "write", "writeln"):
+            seen_brackets.add(m.end() - 1)
+            index_sites.append((m.start(), m.end(), _norm(m.group(1)).replace(" ", "")))
+        for m in INDEX_TAIL_RE.finditer(text):
+            if m.end() - 1 in seen_brackets:
                 continue
+            recv = _receiver_before(text, m.end() - 1)
+            index_sites.append((m.end() - 1 - len(recv), m.end(), recv))
+        for start, after, recv in index_sites:
             # the bracket must close on a non-empty index and be an expression, not a type `[u8]`,
             # an array literal or an attribute
-            j = m.end()
+            j = after
             depth = 1
             while j < len(text) and depth:
                 depth += text[j] == "["
                 depth -= text[j] == "]"
                 j += 1
-            inner = _norm(text[m.end():j - 1])
+            inner = _norm(text[after:j - 1])
             if inner == "" or re.fullmatch(r"u8|char|bool|Value|String|&str|\w+;\s*\w+", inner):
                 continue
-            before = text[max(0, m.start() - 2):m.start()]
+            before = text[max(0, start - 2):start]
             if before.endswith(":") or before.endswith("<"):  # a type position
                 continue
-            fn = _enclosing(text, m.start(), headers)
-            key = (rel, fn, "index", recv.replace(" ", "") + "[" + inner + "]")
+            fn = _enclosing(text, after - 1, headers)
+            key = (rel, fn, "index", recv + "[" + inner + "]")
             counts[key] = counts.get(key, 0) + 1
     return sorted((k + (v,)) for k, v in counts.items())
 
@@ -250,13 +358,16 @@ def _emit(name, rows):
 
 
 def generate(repo):
+    _check_file_lists(repo)
     add = census(repo, ADD_FILES)
     ren = census(repo, RENDER_FILES)
-    if len(ren) < 10 or len(add) < 10:
-        raise ValueError(f"census implausibly small: add={len(add)} render={len(ren)}")
+    bui = census(repo, BUILTIN_FILES)
+    if len(ren) < 10 or len(add) < 10 or len(bui) < 10:
+        raise ValueError(f"census implausibly small: add={len(add)} render={len(ren)} builtins={len(bui)}")
     out = ["/- GENERATED by translator/tables/panic_census.py from tera/src — do not edit. -/",
            "namespace Tera.Generated", "",
            _emit("panicCensusAdd", add), "",
            _emit("panicCensusRender", ren), "",
+           _emit("panicCensusBuiltins", bui), "",
            "end Tera.Generated", ""]
     return {"PanicCensus.lean": "\n".join(out)}
